@@ -222,6 +222,85 @@ def illegal_inputs(ctx, rng):
     return n
 
 
+def refused_step_state(ctx, rng):
+    """A refused step is not a step: after it the trace has the length it had, inspect() of every traced wire still
+    equals its last trace entry, and legal steps that follow behave as if the refused one had never been issued.
+    step_multiple applies its steps one at a time: the legal steps before an illegal one are simulated and traced."""
+    n = 0
+    for k in range(ctx.n(6, 40)):
+        w = rng.choice([3, 4, 8, 64, 65])
+        pyrtl.reset_working_block()
+        a = Input(w, 'a')
+        acc = Register(w, 'acc')
+        cnt = Register(4, 'cnt', reset_value=rng.choice([None, 0, 3]))
+        acc.next <<= acc + a
+        cnt.next <<= cnt + 1
+        o = Output(w, 'o')
+        o <<= acc ^ a
+        c_o = Output(4, 'c')
+        c_o <<= cnt
+        blk = pyrtl.working_block()
+        good = [rng.getrandbits(w) for _ in range(rng.randint(2, 5))]
+        bad = rng.choice([1 << w, (1 << w) + 7, -1, -(1 << w)])
+        after = [rng.getrandbits(w) for _ in range(2)]
+        mask = (1 << w) - 1
+        # reference: the legal steps only
+        accv, cv, want = 0, (cnt.reset_value or 0), {'a': [], 'o': [], 'c': [], 'acc': [], 'cnt': []}
+        for v in good + after:
+            want['a'].append(v); want['o'].append(accv ^ v); want['c'].append(cv); want['acc'].append(accv); want['cnt'].append(cv)
+            accv, cv = (accv + v) & mask, (cv + 1) & 15
+        for simcls in SIMS:
+            names = ['a', 'o', 'c'] + (['acc', 'cnt'] if simcls is not pyrtl.CompiledSimulation else [])
+            for mode in ('step', 'step_multiple'):
+                replay = {'kind': 'refused-step', 'simulator': simcls.__name__, 'mode': mode, 'width': w, 'good': good, 'bad': bad, 'after': after}
+                sim = mk_sim(simcls, blk)
+                n += 1
+                try:
+                    if mode == 'step':
+                        for v in good:
+                            sim.step({'a': v})
+                        sim.step({'a': bad})
+                    else:
+                        sim.step_multiple({'a': good + [bad] + after})
+                    ctx.violation('input-range:%s' % simcls.__name__, '%s.%s accepted the value %d for a %d-bit input' % (
+                        simcls.__name__, mode, bad, w), replay)
+                    continue
+                except pyrtl.PyrtlError:
+                    pass
+                except Exception as e:  # noqa
+                    ctx.violation('input-range:%s' % simcls.__name__, '%s.%s raised %s (not PyrtlError) for the value %d on a %d-bit input' % (
+                        simcls.__name__, mode, type(e).__name__, bad, w), replay)
+                    continue
+                tr = sim.tracer.trace
+                lens = {nm: len(tr[nm]) for nm in names}
+                if any(l != len(good) for l in lens.values()):
+                    ctx.violation('trace-length-after-refusal:%s' % simcls.__name__, '%s.%s: %d legal steps then a refused one: trace lengths %r '
+                                  '(must all be %d)' % (simcls.__name__, mode, len(good), lens, len(good)), replay)
+                    continue
+                bad_w = [nm for nm in names if list(tr[nm]) != want[nm][:len(good)]]
+                if bad_w:
+                    ctx.violation('trace-after-refusal:%s' % simcls.__name__, '%s.%s: trace of %s before the refused step is %r, stepping gives %r' % (
+                        simcls.__name__, mode, bad_w[0], list(tr[bad_w[0]]), want[bad_w[0]][:len(good)]), replay)
+                    continue
+                stale = [(nm, sim.inspect(nm), tr[nm][-1]) for nm in names if sim.inspect(nm) != tr[nm][-1]]
+                if stale:
+                    ctx.violation('inspect-after-refusal:%s' % simcls.__name__, '%s.%s: after a refused step inspect(%s) = %d, the last trace entry is %d' % (
+                        (simcls.__name__, mode) + stale[0]), replay)
+                    continue
+                try:
+                    for v in after:
+                        sim.step({'a': v})
+                except Exception as e:  # noqa
+                    ctx.violation('step-after-refusal:%s' % simcls.__name__, '%s: a legal step after a refused one raised %s: %s' % (
+                        simcls.__name__, type(e).__name__, str(e)[:120]), replay)
+                    continue
+                bad_w = [nm for nm in names if list(tr[nm]) != want[nm]]
+                if bad_w:
+                    ctx.violation('step-after-refusal:%s' % simcls.__name__, '%s.%s: after a refused step the following legal steps give %s = %r, '
+                                  'without the refused step %r' % (simcls.__name__, mode, bad_w[0], list(tr[bad_w[0]]), want[bad_w[0]]), replay)
+    return n
+
+
 def assertions(ctx, rng):
     """rtl_assert raises on the first cycle the wire is 0 and not before"""
     n = 0
@@ -234,7 +313,11 @@ def assertions(ctx, rng):
         r = Register(3, 'r')
         r.next <<= r + a
         cond = (r < rng.randint(2, 6)) | (a == 7)
-        pyrtl.rtl_assert(cond, Boom('assertion failed'))
+        # the assertion's exception may be any exception instance but KeyError, PyRTL's own included
+        exc_kind = rng.choice(['custom', 'custom', 'PyrtlError', 'ValueError'])
+        exc = {'custom': Boom('assertion failed'), 'PyrtlError': pyrtl.PyrtlError('assertion failed'),
+               'ValueError': ValueError('assertion failed')}[exc_kind]
+        pyrtl.rtl_assert(cond, exc)
         o = Output(3, 'o')
         o <<= r
         blk = pyrtl.working_block()
@@ -250,13 +333,25 @@ def assertions(ctx, rng):
             for c, s in enumerate(steps):
                 try:
                     sim.step(dict(s))
-                except Boom:
-                    raised = c
-                    break
+                except type(exc) as e_:
+                    if e_ is exc:
+                        raised = c
+                        break
+                    raise
             n += 1
+            # the cycle in which the assertion fires is a cycle like any other for the observation channels
+            if raised is not None:
+                tr = sim.tracer.trace
+                ln = set(len(v) for v in tr.values())
+                if ln != {raised + 1}:
+                    ctx.violation('trace-length-after-assert:' + simcls.__name__, '%s: after the assertion fired in cycle %d the trace holds %r entries per wire, '
+                                  '%d steps were taken' % (simcls.__name__, raised, sorted(ln), raised + 1), {'kind': 'rtl_assert', 'steps': steps, 'block': ser.data})
+                elif any(sim.inspect(w) != tr[w][-1] for w in ('a', 'o')):
+                    ctx.violation('inspect-vs-trace-after-assert:' + simcls.__name__, '%s: after the assertion fired inspect() differs from the last trace entry' % simcls.__name__,
+                                  {'kind': 'rtl_assert', 'steps': steps, 'block': ser.data})
             if raised != first:
-                ctx.violation('rtl_assert:' + simcls.__name__, '%s raised the assertion at cycle %r; the asserted wire is first 0 at cycle %r' % (
-                    simcls.__name__, raised, first), {'kind': 'rtl_assert', 'steps': steps, 'block': ser.data})
+                ctx.violation('rtl_assert:' + simcls.__name__, '%s raised the assertion (a %s) at cycle %r; the asserted wire is first 0 at cycle %r' % (
+                    simcls.__name__, exc_kind, raised, first), {'kind': 'rtl_assert', 'steps': steps, 'block': ser.data})
     return n
 
 
@@ -278,6 +373,7 @@ def main(ctx):
         if len(ctx.violations) >= 6:
             break
     ni = illegal_inputs(ctx, rng)
+    ni += refused_step_state(ctx, rng)
     na = assertions(ctx, rng)
     ctx.evaluations += ni + na
     ctx.oblige('property:channels agree, illegal inputs refused, assertions raised at the first 0', not ctx.violations,
